@@ -126,6 +126,7 @@ def cases(draw, v3_weight=1, allow_subrow=True):
     w["early_stop"] = draw(st.sampled_from([True, True, True, False]))
     w["proto"] = draw(vs.proto(v3_weight=v3_weight))
     w["api"] = draw(st.sampled_from(["bulkwalk", "bulkwalk", "bulkwalk", "pybulkwalk"]))
+    w["volatile"] = draw(st.sampled_from([False, False, True]))
     return w
 
 
